@@ -11,4 +11,7 @@ DiamondImports == [a |-> <<"b", "c">>, b |-> <<"d">>, c |-> <<"d">>, d |-> <<>>]
 DiamondTargets == <<"d", "a", "c", "b">>
 
 V2 == 1..2
+Body2 == [v \in V2 |-> v]
+V3 == 1..3
+Body3 == [v \in V3 |-> IF v = 3 THEN 1 ELSE v]     \* variant 3 = variant 1 with a different layout
 =============================================================================
